@@ -1165,7 +1165,10 @@ var junkBytes = []byte{'/', '/', '.', '-', '+', '0', '9', 'a', 'f', 'g', 'A', 'F
 func mutate(r *hx.Rand, s string) string {
 	b := []byte(s)
 	for k, n := 0, r.PickInt(1, 1, 1, 2, 3); k < n; k++ {
-		switch r.Intn(9) {
+		switch r.Intn(10) {
+		case 9: // keep only the first k fields
+			f := strings.Split(string(b), "/")
+			b = []byte(strings.Join(f[:r.Intn(len(f)+1)], "/"))
 		case 0: // delete a byte
 			if len(b) > 0 {
 				i := r.Intn(len(b))
@@ -1607,14 +1610,47 @@ func exhaustive(run *hx.Run, handle func(name, stream string, script []string)) 
 					}(), " "))})
 			count++
 		}
-		if depth == 0 {
-			return
+	}
+	// shortest names first, so that the first reported failing input is a minimal one
+	level := [][]string{nil}
+	for depth := 0; depth <= 3; depth++ {
+		var next [][]string
+		for _, comps := range level {
+			rec(comps, 0)
+			for _, c := range pool {
+				next = append(next, append(append([]string{}, comps...), c))
+			}
 		}
-		for _, c := range pool {
-			rec(append(append([]string{}, comps...), c), depth-1)
+		level = next
+	}
+	// every field-prefix and every single-field deletion of valid resource names, through both parsers
+	for _, in := range []string{"", "a", "a/b", "a/b/c"} {
+		for _, e := range []int{3, 9} {
+			for c := 0; c < 2; c++ {
+				h := hash[:fnInfo[e].hashLen]
+				d, err := dwords{in, e, h, 7}.build()
+				if err != nil {
+					panic(err)
+				}
+				u, _ := uuid.Parse("da2f1135-326b-4956-b920-1646cdd6cb53")
+				for _, p := range []string{d.GetByteStreamReadPath(remoteexecution.Compressor_Value(c)),
+					d.GetByteStreamWritePath(u, remoteexecution.Compressor_Value(c)) + "/file"} {
+					f := strings.Split(p, "/")
+					var script []string
+					for k := 0; k <= len(f); k++ {
+						q := strings.Join(f[:k], "/")
+						script = append(script, "read "+hs(q), "write "+hs(q))
+					}
+					for k := 0; k < len(f); k++ {
+						q := strings.Join(append(append([]string{}, f[:k]...), f[k+1:]...), "/")
+						script = append(script, "read "+hs(q), "write "+hs(q))
+					}
+					handle(fmt.Sprintf("exh/trunc/%d", count), "exhaustive", script)
+					count++
+				}
+			}
 		}
 	}
-	rec(nil, 3)
 	alpha := []byte{'a', '/', '.'}
 	var strs func(prefix []byte, depth int)
 	var batch []string
